@@ -22,6 +22,9 @@ from .automat import AutomatSupport
 from . import source
 
 
+_SHARED = {}     # per-process caches (placeholder literals, clause-set formulas); one engine per process
+
+
 class Component:
     """something with a small finite domain that invariant clauses talk about"""
 
@@ -231,6 +234,38 @@ class Cluster:
                 for v2 in c2.domain:
                     out.append(((c1.cid, v1), (c2.cid, v2)))
         return out
+
+    # ---- fast path: the clause set as ONE formula over placeholder literals, instantiated per
+    # state by a single substitution (building thousands of small z3 terms per path in Python
+    # was the dominant cost)
+    def placeholders(self):
+        if "ph" not in _SHARED:
+            _SHARED["ph"] = {}
+            for c in self.components:
+                for v in c.domain:
+                    _SHARED["ph"][(c.cid, v)] = z3.Bool(f"L!{c.cid}!{v}")
+        return _SHARED["ph"]
+
+    def clause_ph(self, clause):
+        memo = _SHARED.setdefault("clause", {})
+        r = memo.get(clause)
+        if r is None:
+            ph = self.placeholders()
+            lits = [ph[(cid, val)] for cid, val in clause]
+            r = memo[clause] = z3.Not(z3.And(lits)) if len(lits) > 1 else z3.Not(lits[0])
+        return r
+
+    def literal_map(self, it, objs):
+        comp = {c.cid: c for c in self.components}
+        ph = self.placeholders()
+        return [(p, self.comp_eq(it, objs, comp[cid], val)) for (cid, val), p in ph.items()]
+
+    def conj_ph(self, keys, cache_key):
+        memo = _SHARED.setdefault("conj", {})
+        if cache_key not in memo:
+            cls = [self.clause_ph(clause_from_key(k)) for k in keys]
+            memo[cache_key] = z3.And(cls) if cls else z3.BoolVal(True)
+        return memo[cache_key]
 
     def clause_z3(self, it, objs, clause, cache=None):
         comp = {c.cid: c for c in self.components}
